@@ -268,6 +268,17 @@ func genJSONNumber(t *rapid.T) string {
 	if ir(t, 0, 1, "neg") == 1 {
 		b.WriteByte('-')
 	}
+	if ir(t, 0, 199, "compensated") == 0 {
+		// a long run of zeros cancelled by the written exponent (a moderate value although digit count and exponent
+		// are both far beyond the range, and beyond 16- and 20-bit counters), as C05's mega-literals
+		z := []int{300, 7000, 40000, 70000, 140000, 700000}[ir(t, 0, 5, "zeros")] + ir(t, 0, 9, "zoff")
+		body := strings.TrimLeft(digitString(t, ir(t, 1, 30, "n")), "0") + "7"
+		lead := ir(t, -30, 30, "lead")
+		if rapid.Bool().Draw(t, "fracZeros") {
+			return b.String() + "0." + strings.Repeat("0", z) + body + "e" + strconv.Itoa(z+len(body)+lead)
+		}
+		return b.String() + body + strings.Repeat("0", z) + "e" + strconv.Itoa(-z+lead)
+	}
 	var intD, fracD string
 	switch ir(t, 0, 5, "shape") {
 	case 0:
